@@ -44,6 +44,22 @@ def _strategy(draw):
         gen.rename_nodes(draw, spec)
         spec["adversarial_names"] = True
     spec["split"] = draw(st.sampled_from([None, None, None, "6h", "12h", "d"]))
+    if draw(st.integers(0, 7)) == 0:
+        # split build with two intervals of the same length in which a windowed asset owns the same number of steps
+        # at different places ([m-j, m+j) around the interval boundary m): equal sizes, different step placement
+        m = draw(st.sampled_from([6, 12]))
+        g = spec["grid"]
+        if g["freq"] == "h" and g["T"] >= m + 2:
+            j = draw(st.integers(1, min(m - 1, g["T"] - m)))
+            cxs = gen.Cx(g, build.all_nodes(spec), spec["prices"])
+            w = gen.draw_asset(draw, cxs, draw(st.sampled_from(["simple", "transport", "storage"])) if len(cxs.nodes) > 1 else "simple", "wsym")
+            w["start"], w["end"] = m - j, m + j
+            g["T"] = 2 * m
+            for k_ in spec["prices"]:
+                spec["prices"][k_] = (list(spec["prices"][k_]) * 3)[:2 * m]
+            spec["assets"] = [a for a in spec["assets"] if a.get("start") is None and a.get("end") is None and not a.get("freq") and not a.get("periodicity") and a["type"] in gen.PLAIN_WINDOWED and not a.get("min_take") and not a.get("max_take")] + [w]
+            spec["split"] = "%dh" % m
+            spec["symmetric_window"] = True
     # coarse assets with their own discounting, and now and then a second asset with the same frequency and window but
     # another wacc (no reference model here, so discounted coarse variables need no convention)
     coarse = [a for a in spec["assets"] if a.get("freq")]
@@ -130,6 +146,38 @@ def structural(out, op, T, what):
     return True
 
 
+def nodal_rows(out, op, A, nrows, what, shift=0):
+    """exactly one nodal row per (node, step) that has dispatch rows in the mapping, coefficient = summed dispatch
+    factor per variable, rhs 0, map_nodal_restr lists the pairs in row order (steps of map_nodal_restr = mapping steps
+    + shift: the interval problems of a split build keep local steps in their mapping)"""
+    n = len(op.c)
+    mp = op.mapping
+    d = mp[mp["type"] == "d"]
+    exp = {}
+    df = d["disp_factor"].fillna(1.0).values if "disp_factor" in d.columns else np.ones(len(d))
+    for i, node, t, f in zip(d.index.values.astype(int), d["node"].values, d["time_step"].values.astype(int), df):
+        exp.setdefault((int(t) + shift, str(node)), {})
+        exp[(int(t) + shift, str(node))][i] = exp[(int(t) + shift, str(node))].get(i, 0.0) + float(f)
+    got_pairs = [(int(t), str(nn)) for (t, nn) in (op.map_nodal_restr or [])]
+    if len(got_pairs) != len(nrows):
+        out.fail("%s%d nodal rows but map_nodal_restr has %d entries" % (what, len(nrows), len(got_pairs)))
+    elif sorted(got_pairs) != sorted(exp.keys()) or len(set(got_pairs)) != len(got_pairs):
+        out.fail("%snodal rows for %d (step,node) pairs, expected exactly one for each of %d pairs with dispatch"
+                 % (what, len(got_pairs), len(exp)))
+    else:
+        for k, ri in enumerate(nrows):
+            rowv = A[ri].toarray().ravel()
+            e = np.zeros(n)
+            for i, f in exp[got_pairs[k]].items():
+                e[i] = f
+            if not np.allclose(rowv, e, rtol=1e-9, atol=1e-12):
+                out.fail("%snodal row %d %s: coefficients differ from summed dispatch factors" % (what, k, got_pairs[k]))
+                break
+            if op.b[ri] != 0:
+                out.fail("%snodal row %d has right-hand side %g" % (what, k, op.b[ri]))
+                break
+
+
 def split_mapping(spec, out):
     """the mapping of a split problem describes the stacked interval problems: interval k occupies the variables
     [off_k, off_k + n_k), its rows are the interval's own rows with the index shifted by off_k and the steps by a
@@ -174,6 +222,15 @@ def split_mapping(spec, out):
                 return out.fail("split mapping: interval %d covers steps %d..%d, previous intervals reach step %d, grid has %d steps"
                                 % (k, lo, hi, prev_hi, T))
             prev_hi = hi
+            # the interval's own nodal rows (the trailing rows of type N) against the interval's own mapping
+            cT = np.array(list(o.cType or ""))
+            nN = 0
+            while nN < len(cT) and cT[len(cT) - 1 - nN] == "N":
+                nN += 1
+            sub = Outcome()
+            nodal_rows(sub, o, sp.csr_matrix(o.A), np.arange(len(cT) - nN, len(cT)), "split interval %d: " % k, shift=shift)
+            if sub.violations:
+                return out.fail(sub.violations[0])
         off += nk
 
 
@@ -306,31 +363,7 @@ def check(spec):
     nrows = np.arange(row, len(cT))
     if len(nrows) and not all(cT[nrows] == "N"):
         out.fail("rows after the %d asset rows are not all nodal rows" % row)
-    mp = op.mapping
-    d = mp[mp["type"] == "d"]
-    exp = {}
-    df = d["disp_factor"].fillna(1.0).values if "disp_factor" in d.columns else np.ones(len(d))
-    for i, node, t, f in zip(d.index.values.astype(int), d["node"].values, d["time_step"].values.astype(int), df):
-        exp.setdefault((int(t), str(node)), {})
-        exp[(int(t), str(node))][i] = exp[(int(t), str(node))].get(i, 0.0) + float(f)
-    got_pairs = [(int(t), str(nn)) for (t, nn) in (op.map_nodal_restr or [])]
-    if len(got_pairs) != len(nrows):
-        out.fail("%d nodal rows but map_nodal_restr has %d entries" % (len(nrows), len(got_pairs)))
-    elif sorted(got_pairs) != sorted(exp.keys()) or len(set(got_pairs)) != len(got_pairs):
-        out.fail("nodal rows for %d (step,node) pairs, expected exactly one for each of %d pairs with dispatch"
-                 % (len(got_pairs), len(exp)))
-    else:
-        for k, ri in enumerate(nrows):
-            rowv = A[ri].toarray().ravel()
-            e = np.zeros(n)
-            for i, f in exp[got_pairs[k]].items():
-                e[i] = f
-            if not np.allclose(rowv, e, rtol=1e-9, atol=1e-12):
-                out.fail("nodal row %d %s: coefficients differ from summed dispatch factors" % (k, got_pairs[k]))
-                break
-            if op.b[ri] != 0:
-                out.fail("nodal row %d has right-hand side %g" % (k, op.b[ri]))
-                break
+    nodal_rows(out, op, A, nrows, "")
     if spec.get("split") and not out.violations:
         split_mapping(spec, out)
     out.label("special_shape" if special else "plain_shape", "adversarial_names" if spec.get("adversarial_names") else None)
